@@ -61,6 +61,13 @@ def dictexpr(t):
         a, b = dictexpr(t[2]), dictexpr(t[3])
         if a is not None and a == b:
             return a
+        # `if do: D = {**do, **D}`: when `do` is empty the merge contributes nothing, so both branches are the merge
+        ck = dictexpr(t[1])
+        if a is not None and b is not None and ck is not None and len(ck) == 1:
+            if [k for k in a if k != ck[0]] == b:
+                return a
+            if [k for k in b if k != ck[0]] == a and t[1][0] == "unop":
+                return b
     return None
 
 
@@ -490,7 +497,9 @@ def run(prog, rep, tier):
         for p_ in raw:
             guarded = any(pol is True and implies_not_none(cond, p_) for cond, pol in c.path)
             defaulted = any(isinstance(y, tuple) and y[0] == "bool" and y[1] == "or" and len(y[2]) == 2 and y[2][0] == p_ and y[2][1] in EMPTY_DICTS for y in walk(x))
-            ok = ok and (guarded or defaulted)
+            # built under a branch that already established the parameter is not None: phi(<p truthy> ? {... p ...} : <no p>)
+            branch = any(isinstance(y, tuple) and y[0] == "phi" and implies_not_none(y[1], p_) and mentions(y[2], p_) and not mentions(y[3], p_) for y in walk(x))
+            ok = ok and (guarded or defaulted or branch)
         rep.check("NONE.guard", ok, fwhere(f, c.node), "%s is parsed only when it is truthy / defaulted to {} (None skips the block)" % fmt(x)[:60],
                   "%s may reach .items() when it is None" % fmt(x)[:60])
     rep.check("NONE.blocks", kinds_seen == set(KINDS.values()), fwhere(f),
@@ -558,6 +567,8 @@ def run(prog, rep, tier):
         rep.check("RANGE.uniform", ok, fwhere(fc, us[0].node if us else None), "self.%s <- rng.uniform(%s[0], %s[1], size=p) from default_rng(random_state)" % (name, name, name),
                   "range sampling of %s deviates: %s" % (name, why))
     pattern_method(prog, rep, LG + "LGANM.sample", ["W"])
+    from .common import no_foreign_writes
+    no_foreign_writes(rep, prog, LG + "LGANM.sample")
     rep.exhaustive = True      # the finite tables (pairs / valuations) are enumerated completely
     rep.require_count("FORMULA", 3)
     rep.require_count("DTYPE", 2)
